@@ -35,14 +35,14 @@ HIST_PROPS = {
     "C20": {
         "targets": ["hist"],
         "level": "fault_enumeration",
-        "lanes": [lane("asan", "psv_hist.asan", 10000, 35000, 0, 200)],
+        "lanes": [lane("asan", "psv_hist.asan", 9000, 14000, 0, 100)],
         "budget_s": {"quick": 45, "thorough": 780},
         "rule": "one run = one history of 1..25 ops over 1..3 objects of splinetable<SimAlloc> (construct empty / from a /sim path / by stacking, read_fits, read_fits_mem "
                 "(valid, damaged, missing; into empty or occupied), fit (valid, invalid arguments, over a populated object, monotonic), write_key/remove_key (valid, rejected), convolve, "
                 "permuteDimensions (valid, invalid), move construction, move assignment (incl. self), operator== (incl. empty operands), write_fits/write_fits_mem, getters + evaluation battery, destroy). "
                 "Pass 0 executes the history fault-free and records how many allocator and file events every op issues; every further pass re-executes the whole history with exactly one fault: "
                 "thorough tier = every allocation position of every op (std::bad_alloc through the allocator), every read position x {EIO, premature EOF, short read} of every disk read, "
-                "every write position x {ENOSPC, EIO} + close EIO + open EMFILE of every write_fits (enumerated, bounded by 1500 passes per history, counter enumeration_truncated when the bound bites); "
+                "every write position x {ENOSPC, EIO} + close EIO + open EMFILE of every write_fits (enumerated, bounded by 1000 passes per history, counter enumeration_truncated when the bound bites); "
                 "quick tier = the sampled faults attached to ops in the plan. After every op: outcome, ownership (ledger vs model), model comparison through the getters, bystander objects unchanged. "
                 "non-trivial = plan hash of a run in which a fault fired or an op failed; distinct = by plan hash; coverage.distinct.states counts (model-state class, op, fault, outcome) tuples",
         "components": HIST_COMPONENTS,
@@ -54,7 +54,7 @@ HIST_PROPS = {
     "C16": {
         "targets": ["hist"],
         "level": "exploration",
-        "lanes": [lane("asan", "psv_hist.asan", 40000, 1000000, 0, 500)],
+        "lanes": [lane("asan", "psv_hist.asan", 30000, 700000, 0, 400)],
         "budget_s": {"quick": 45, "thorough": 780},
         "rule": "one run = one history of up to 41 ops on one populated table: write_key<int|double|std::string|const char*>, remove_key, get_aux_value, read_key<int|double|string>, get_aux_key, "
                 "get_naux_values and round trips (write_fits_mem->read_fits_mem or write_fits->read_fits on the simulated disk; the object is replaced by its re-read twin), over a per-run alphabet "
@@ -74,7 +74,7 @@ HIST_PROPS = {
     "C19": {
         "targets": ["hist"],
         "level": "exploration",
-        "lanes": [lane("asan", "psv_hist.asan", 12000, 250000, 0, 250)],
+        "lanes": [lane("asan", "psv_hist.asan", 4500, 100000, 0, 100)],
         "budget_s": {"quick": 45, "thorough": 780},
         "rule": "one run = one generated table file (1..6 dimensions, mixed orders 0..5, 0..50 auxiliary keys of all lengths incl. HIERARCH and literal cards, legacy layouts: single ORDER, no EXTENTS, "
                 "no PERIOD) and a list of cases (n, d): n=1 (load only) and, for every dimension d, a convolution with n in 2..8 symmetric kernel knots. Per case: cap = estimateMemory(path, n, d); "
@@ -91,7 +91,7 @@ HIST_PROPS = {
     "C18": {
         "targets": ["hist"],
         "level": "exploration",
-        "lanes": [lane("asan", "psv_hist.asan", 8000, 150000, 0, 200)],
+        "lanes": [lane("asan", "psv_hist.asan", 6000, 180000, 0, 100)],
         "budget_s": {"quick": 45, "thorough": 780},
         "rule": "one run = one history of 1..30 calls over 1..3 `struct splinetable` handles (splinetable_init/free, readsplinefitstable (valid, damaged, missing; with read faults; into an occupied handle), "
                 "readsplinefitstable_mem (valid, damaged, into an occupied handle), writesplinefitstable (with write faults), writesplinefitstable_mem, splinetable_get_key/read_key/write_key, all accessors, "
